@@ -26,7 +26,7 @@ for pid in ids:
 m = {
     "version": 1,
     "setup_cmd": "./setup.sh",
-    "hooks": {"guard": "verif", "enable": "no hook is committed to /repo: in-package harnesses (E1) and the three test hooks (Dealer.VerifEncryptDeal of share/vss/pedersen and share/vss/rabin, PairShuffle.VerifChallengeMessages of shuffle; files under /verif/e2/overlays) are injected with go build/test -overlay files that only ADD a file to a package (see DESIGN.md sections 4 and 11.1)", "baseline_off_cmd": base, "source_commits": [], "add_only": True},
+    "hooks": {"guard": "verif", "enable": "no hook is committed to /repo: in-package harnesses (E1) and the four test hooks (Dealer.VerifEncryptDeal of share/vss/pedersen and share/vss/rabin, DistKeyGenerator.VerifDealer of share/dkg/rabin, PairShuffle.VerifChallengeMessages of shuffle; files under /verif/e2/overlays) are injected with go build/test -overlay files that only ADD a file to a package (see DESIGN.md sections 4 and 11.1)", "baseline_off_cmd": base, "source_commits": [], "add_only": True},
     "engines": [
         {"name": "E1 ssaexec", "path": "/verif/e1", "serves_properties": [c["property_id"] for c in checks if "E1" in c["engine"]], "kind_free_text": "go/ssa -> SMT-LIB2 symbolic executor (bit-vector, int+overflow, product abstraction, field and dlog modes), z3/cvc5 decide"},
         {"name": "E2 symgroup", "path": "/verif/e2", "serves_properties": [c["property_id"] for c in checks if "E2" in c["engine"]], "kind_free_text": "symbolic kyber.Group/pairing.Suite (terms over Q) under the real protocol code; z3 QF_NRA decides every equality and assertion; concrete twin on the real suites"},
